@@ -106,21 +106,27 @@ MUTANTS = [
                                                     '        terminals, callback = _create_unless(self.terminals, self.g_regex_flags, self.re, self.use_bytes)\n        self.callback = callback\n')]),
     ('C10', 'parse-conf-cached-per-parser', [R('lark/parsers/lalr_parser.py', '        parse_conf = ParseConf(self.parse_table, self.callbacks, start)\n',
                                              "        if not hasattr(self, '_confs'):\n            self._confs = {}\n        parse_conf = self._confs.get(start)\n        if parse_conf is None:\n            parse_conf = self._confs[start] = ParseConf(self.parse_table, self.callbacks, start)\n")]),
-    ('C10', 'indenter-no-reset-of-paren-level', [R('lark/indenter.py', '    def process(self, stream):\n        self.paren_level = 0\n', '    def process(self, stream):\n')]),
+    ('C10', 'indenter-no-reset-of-paren-level', [R('lark/indenter.py', "        self.paren_level = 0\n        self.indent_level = [0]\n        token = None\n", "        self.indent_level = [0]\n        token = None\n")]),
     ('C10', 'rule-options-shared-again', [R('lark/load_grammar.py', '                    exp_options = copy(options)\n\n                for sym in expansion:', '                    exp_options = options\n\n                for sym in expansion:')]),
-    ('C18', 'indenter-no-reset-of-paren-level', [R('lark/indenter.py', '    def process(self, stream):\n        self.paren_level = 0\n', '    def process(self, stream):\n')]),
-    ('C18', 'indenter-no-reset-of-indent-level', [R('lark/indenter.py', '        self.paren_level = 0\n        self.indent_level = [0]\n        return self._process(stream)', '        self.paren_level = 0\n        return self._process(stream)')]),
+    ('C18', 'indenter-no-reset-of-paren-level', [R('lark/indenter.py', "        self.paren_level = 0\n        self.indent_level = [0]\n        token = None\n", "        self.indent_level = [0]\n        token = None\n")]),
+    ('C18', 'indenter-no-reset-of-indent-level', [R('lark/indenter.py', "        self.paren_level = 0\n        self.indent_level = [0]\n        token = None\n", "        self.paren_level = 0\n        token = None\n")]),
+    ('C18', 'indenter-reset-when-process-is-called (revert of 4b9270f)', [R('lark/indenter.py', "        self.paren_level = 0\n        self.indent_level = [0]\n        token = None\n", "        token = None\n"),
+                                                                          R('lark/indenter.py', "    def process(self, stream):\n        return self._process(stream)", "    def process(self, stream):\n        self.paren_level = 0\n        self.indent_level = [0]\n        return self._process(stream)")]),
     ('C18', 'single-dedent-per-newline', [R('lark/indenter.py', '            while indent < self.indent_level[-1]:\n                self.indent_level.pop()', '            if indent < self.indent_level[-1]:\n                self.indent_level.pop()')]),
     ('C18', 'tabs-count-4', [R('lark/indenter.py', "indent_str.count('\\t') * self.tab_len", "indent_str.count('\\t') * 4")]),
     ('C12', 'load-errors-narrowed-to-unpickling-error', [R('lark/lark.py', '                except Exception: # We should probably narrow done which errors we catch here.', '                except pickle.UnpicklingError:')]),
-    ('C12', 'version-dropped-from-key', [R('lark/lark.py', "s = grammar + options_str + __version__ + str(sys.version_info[:2])", "s = grammar + options_str + str(sys.version_info[:2])")]),
-    ('C12', 'python-version-dropped-from-key', [R('lark/lark.py', "s = grammar + options_str + __version__ + str(sys.version_info[:2])", "s = grammar + options_str + __version__")]),
+    ('C12', 'version-dropped-from-key', [R('lark/lark.py', "s = repr((grammar, options_key, __version__, sys.version_info[:2],", "s = repr((grammar, options_key, sys.version_info[:2],")]),
+    ('C12', 'python-version-dropped-from-key', [R('lark/lark.py', "s = repr((grammar, options_key, __version__, sys.version_info[:2],", "s = repr((grammar, options_key, __version__,")]),
     ('C12', 'used-files-check-ignored', [R('lark/lark.py', '                                if verify_used_files(cached_used_files):', '                                if verify_used_files(cached_used_files) or True:')]),
     ('C12', 'payload-digest-not-verified', [R('lark/lark.py', "if sha256_digest(header[0] + payload).encode('utf8') == header[2] and not f.read(1):", 'if True:')]),
     ('C12', 'digest-does-not-cover-key', [R('lark/lark.py', "sha256_digest(header[0] + payload).encode('utf8') == header[2]", "sha256_digest(payload).encode('utf8') == header[2]"),
                                         R('lark/lark.py', "sha256_digest(key + payload).encode('utf8')", "sha256_digest(payload).encode('utf8')")]),
     ('C12', 'source-path-not-restored', [R('lark/lark.py', '                    self.source_path = old_source_path\n', '')]),
-    ('C12', 'import-base-not-in-key', [R('lark/lark.py', " + str(relative_import_base_path(self.source_path))", '')]),
+    ('C12', 'import-base-not-in-key', [R('lark/lark.py', "sys.version_info[:2], str(relative_import_base_path(self.source_path))))", "sys.version_info[:2]))")]),
+    ('C12', 'key-parts-concatenated-again (revert of 8a128e0)', [R('lark/lark.py', "s = repr((grammar, options_key, __version__, sys.version_info[:2], str(relative_import_base_path(self.source_path))))", "s = grammar + ''.join(k + v for k, v in options_key) + __version__ + str(sys.version_info[:2]) + str(relative_import_base_path(self.source_path))")]),
+    ('C12', 'always-accept-not-in-key (revert of 40e3147)', [R('lark/lark.py', "                if self.options.postlex is not None:\n                    # The postlexer itself", "                if False:\n                    # The postlexer itself")]),
+    ('C12', 'edit-terminals-pickled-into-cache (revert of 2cbbc29)', [R('lark/lark.py', "self.save(payload_f, _LOAD_ALLOWED_OPTIONS | {'edit_terminals'})", "self.save(payload_f, _LOAD_ALLOWED_OPTIONS)")]),
+    ('C11', 'pattern-flags-left-as-list-on-load (revert of 68ca987)', [R('lark/lexer.py', "        self.flags = frozenset(self.flags)\n\n    def __repr__", "        pass\n\n    def __repr__")]),
     ('C12', 'option-dropped-from-key', [R('lark/lark.py', "unhashable = ('transformer', 'postlex', 'lexer_callbacks', 'edit_terminals', '_plugins')", "unhashable = ('transformer', 'postlex', 'lexer_callbacks', 'edit_terminals', '_plugins', 'maybe_placeholders')")]),
     ('C05', 'ordered-sets-ignored', [R('lark/parsers/earley.py', 'self.Set = OrderedSet if ordered_sets else set', 'self.Set = set')]),
     ('C05', 'sort-key-priority-sign-flipped', [R('lark/parsers/earley_forest.py', 'return self.is_empty, -self.priority, self.rule.order', 'return self.is_empty, self.priority, self.rule.order')]),
